@@ -240,12 +240,38 @@ def crossrep_cell(fam, tier):
     return Cell("%s/crossrep" % fam, st_case(), check, nontrivial, classify, quick=300, thorough=5000)
 
 
+def euler_variant_cell():
+    def check(case):
+        i = case["variant"]
+        require(0 <= i < len(L.euler_variants()))
+        name, ty, seq, G = L.euler_variants()[i]
+        ang = np.array(case["ang"], float)
+        M = L.euler_variant_matrix(ty, seq, ang)
+        th = float(np.linalg.norm(ref.log_SO3(M)))
+        require(th <= PI - 1e-2)
+        w = cy.vec(L.euler_variant_fn(i, "log")(ang))
+        if not np.all(np.isfinite(w)):
+            raise Violation("%s: log returned non-finite values %s" % (name, w.tolist()), **case)
+        if float(np.linalg.norm(w)) > PI + 1e-9:
+            raise Violation("%s: |log| = %.12g exceeds pi" % (name, np.linalg.norm(w)), **case)
+        a = float(np.linalg.norm(w))
+        R = ref.rodrigues(w / a, a) if a > 0 else np.eye(3)
+        d = ref.rot_dist(R, M)
+        tol = 1e-9 / max(PI - th, 1e-2) + 1e-9
+        if d > tol:
+            raise Violation("%s: exp(log(X)) differs from X by %.3e rad (tol %.1e)" % (name, d, tol), log=w.tolist(), **case)
+
+    return Cell("SO3EulerVariants/explog", L.euler_variant_case(), check, lambda c: sum(abs(a) > 1e-2 for a in c["ang"]) >= 2,
+                lambda c: [L.euler_variants()[c["variant"]][1]], quick=460, thorough=6000)
+
+
 def build(tier):
     cells = []
     for gi in L.all_groups(tier):
         cells += make_cells(gi, tier)
     for fam in FAMILIES:
         cells.append(crossrep_cell(fam, tier))
+    cells.append(euler_variant_cell())
     return {
         "cells": cells,
         "rule": RULE,
